@@ -21,9 +21,9 @@ UNDECIDED = ['which placeholders survive a given merge history is decided by C02
 def r1(repo, run):
     fi = repo.func('Config.__init__')
     g = cfg_of(fi)
-    sinks = g.find_calls(lambda c: is_method_call(c, member='evaluate', ayns=False) or norm(c.func) in ('copy.deepcopy', 'deepcopy'))
-    if len(sinks) < 2:
-        raise AnalysisError('Config.__init__: deepcopy / evaluate calls not found')
+    sinks = g.find_calls(lambda c: is_method_call(c, member='evaluate', ayns=False) or norm(c.func) in ('copy.deepcopy', 'deepcopy', 'copy.copy'))
+    if not any(is_method_call(c, member='evaluate', ayns=False) for n, c in sinks):
+        raise AnalysisError('Config.__init__: evaluate call not found')
     is_gate = lambda c: is_method_call(c, member='check_missing') and c.args
     seen, _ = cfgmod.must_have_seen(g, is_gate)
     gate_calls = [c for n, c in g.find_calls(is_gate)]
